@@ -41,7 +41,7 @@ impl Components {
     pub uninterp spec fn view(&self) -> Seq<Component>;
     #[verifier::external_body]
     pub fn next(&mut self) -> (r: Option<Component>)
-        ensures r is Some == (old(self)@.len() > 0), r matches Some(c) ==> c == old(self)@[0],
+        ensures r is Some == (old(self)@.len() > 0), r matches Some(c) ==> c == old(self)@[0] && final(self)@ == old(self)@.drop_first(), r is None ==> final(self)@ == old(self)@,
     { unimplemented!() }
     #[verifier::external_body]
     pub fn any<F: FnMut(Component) -> bool>(self, f: F) -> (r: bool)
